@@ -609,3 +609,8 @@ impl RepositoryBackends {
         self.repo_hot.clone()
     }
 }
+
+// verification hook (guard: cfg(kani), set only by the Kani compiler): harnesses live in /verif/kani
+#[cfg(kani)]
+#[path = "/verif/kani/mock_backend.rs"]
+pub(crate) mod verif_mock;
